@@ -329,5 +329,7 @@ def check(run, fx, tier, floors=True):
     r12_v(run, fx)
     r12_d(run, fx)
     r12_f(run, fx, floors)
+    import zipalign
+    zipalign.rule_zip(run, fx, "R12-Z", select=(lambda b: b.file.startswith(("src/tables/variable_fonts", "src/tables/glyf/variation", "src/variations"))) if floors else None, floors=floors, floor_n=5)
     recursion.run_rule(run, fx, "C01-a", lambda f: any("glyf::variation" in p or p.startswith("variations::") for p in f.local_paths),
                        floors_n=1 if floors else None)
